@@ -100,7 +100,10 @@ func c06gen(rng *rand.Rand, hp *Pool, cat []catEntry) c06op {
 			fmt.Sprintf("%s@{|x| {|| x}}@{|f| f()}.S == %s@{|x| x}.S", r2, r2),
 			fmt.Sprintf("%s$([]){|p| [*p[0], {|| p[1]}]}@{|f| f()}.S == %s@{|x| x}.S", r2, r2),
 			fmt.Sprintf("%s~$([]){|p| [*p[0], [p, p[1].S]]}@{|q| q[0][1].S == q[1]}", r),
-		}[rng.Intn(6)]}
+			// one source (with or without spare room behind its elements) unpacked / extended several times
+			fmt.Sprintf("{|s| a := [*s, 1]; b := [*s, 2]; c := [*s, 3]; [a[-1] == 1, b[-1] == 2, c[-1] == 3, a.len == s.len + 1]}(%s%s)", n("arr"), []string{"", " + [0]", "[0:1]", "[:-1]", ".A", " * 2"}[rng.Intn(6)]),
+			fmt.Sprintf("{|s| a := s + [1]; b := s + [2]; c := [*s, *s]; [a[-1] == 1, b[-1] == 2, c.len == s.len * 2]}(%s%s)", n("arr"), []string{"", " + [0]", "[0:1]", "[:-1]", ".A"}[rng.Intn(5)]),
+		}[rng.Intn(8)]}
 	case 19, 20:
 		// a stored, caught error raised again (and caught again): the stored value keeps its own report
 		e := n("errw", "either")
@@ -237,7 +240,7 @@ func runC06(w *fw.W) {
 		vs.finish(&r)
 		w.End(r)
 	}
-	nh := w.Pick(480, 16000)
+	nh := w.Pick(800, 16000)
 	for h := 0; h < nh; h++ {
 		if !w.Take() {
 			continue
